@@ -779,7 +779,7 @@ class BaseImage(metaclass=ImageMeta):
                             end="",
                             flush=True,
                         )
-                    except (KeyboardInterrupt, Exception):
+                    except BaseException:
                         self._handle_interrupted_draw()
                         raise
             except KeyboardInterrupt:
@@ -1364,7 +1364,7 @@ class BaseImage(metaclass=ImageMeta):
         except KeyboardInterrupt:
             interrupted = True
             self._handle_interrupted_draw()
-        except Exception:
+        except BaseException:
             interrupted = True
             self._handle_interrupted_draw()
             raise
